@@ -6,6 +6,7 @@ import Msmart.Driver.AC
 import Msmart.Driver.Dev
 import Msmart.Driver.Lan
 import Msmart.Driver.Cloud
+import Msmart.Driver.Cli
 
 open Msmart Msmart.Driver
 
@@ -27,6 +28,9 @@ def handle (line : String) : String :=
     | some r => r
     | none =>
     match cloudOp op t with
+    | some r => r
+    | none =>
+    match cliOp op t with
     | some r => r
     | none => "bad-op"
 
